@@ -120,7 +120,25 @@ func runC03SFU(t *testing.T, seed uint64, planJSON []byte, tier string) (res *Re
 					w = sg.wherePK(0, pk, &args)
 				}
 			}
-			plan.Selects = append(plan.Selects, C03Select{SQL: fmt.Sprintf("SELECT * FROM %s WHERE %s FOR UPDATE", plan.Tables[0].Name, w), Args: args, Explicit: g.Bool(), Conflict: g.Prob(0.35)})
+			tail := ""
+			t0 := &plan.Tables[0]
+			if len(t0.PK) == 1 && len(t0.Rows) >= 2 && g.Prob(0.3) {
+				// a locking read that picks its rows by order and limit: the rows the
+				// coordinator is asked about must be the rows that come back
+				var items []string
+				args = nil
+				for _, r := range t0.Rows {
+					for j, c := range t0.Cols {
+						if c.Name == t0.PK[0] {
+							items = append(items, sg.place(r[j], &args))
+						}
+					}
+				}
+				w = fmt.Sprintf("%s IN (%s)", t0.PK[0], strings.Join(items, ", "))
+				oc := t0.Cols[g.Intn(len(t0.Cols))].Name
+				tail = fmt.Sprintf(" ORDER BY %s %s LIMIT %d", oc, simkit.Pick(g, []string{"DESC", "DESC", "ASC"}), g.Range(1, len(t0.Rows)-1))
+			}
+			plan.Selects = append(plan.Selects, C03Select{SQL: fmt.Sprintf("SELECT * FROM %s WHERE %s%s FOR UPDATE", plan.Tables[0].Name, w, tail), Args: args, Explicit: g.Bool(), Conflict: g.Prob(0.35)})
 		}
 		tape = simkit.NewTape(seed)
 	}
